@@ -109,13 +109,25 @@ def _work(job):
             ob.query = smt.Query(name, ob.pc + [z3.Not(ob.goal)], names)
             queries.append(ob.query)
     smt.decide_all(queries, timeout=timeout, workers=4, prefer="cvc5")
+    if os.environ.get("VERIF_CROSS") == "1":
+        # thorough tier: every `unsat` is put to the OTHER back end as well; `sat` there is a disagreement, never a pass
+        smt.cross_check([q for q in queries if q.status == "unsat"], timeout=min(timeout, 10), workers=4)   # confirmation, not the verdict: short budget
     for name, obs in groups.items():
         qs = [ob.query for ob in obs if ob.query is not None]
         sat = [ob for ob in obs if ob.query is not None and ob.query.status == "sat"]
         unk = [ob for ob in obs if ob.query is not None and ob.query.status not in ("sat", "unsat")]
         rec = {"name": name, "clause": obs[0].clause, "kind": obs[0].kind, "paths": len(obs), "secs": round(sum(q.secs for q in qs), 3),
                "backends": sorted({q.backend for q in qs}) or ["simplifier"], "status": "discharged"}
-        if sat:
+        dis = [ob for ob in obs if ob.query is not None and getattr(ob.query, "cross", None) == "sat"]
+        if os.environ.get("VERIF_CROSS") == "1":
+            rec["second_backend"] = {"confirmed": sum(1 for q in qs if getattr(q, "cross", None) == "unsat"),
+                                     "unknown": sum(1 for q in qs if q.status == "unsat" and getattr(q, "cross", None) not in ("unsat", "sat")),
+                                     "path_queries": len(qs)}
+        if dis and not sat:
+            rec["status"] = "unknown"
+            rec["paths_unknown"] = len(dis)
+            rec["disagreement"] = "%s says unsat, the other back end says sat on %d path queries" % (dis[0].query.backend, len(dis))
+        elif sat:
             ob = sat[0]
             rec["status"] = "refuted"
             rec["model"] = {k.strip("|"): v for k, v in ob.query.model.items()}
@@ -131,6 +143,8 @@ def _work(job):
 
 
 def run_functions(ck, contract_modules, quals, timeout=20, hooks_mod=None, procs=None):
+    if ck.tier == "thorough":
+        os.environ["VERIF_CROSS"] = "1"         # inherited by the forked workers
     jobs = [(ck.repo.root, contract_modules, q, timeout, hooks_mod) for q in quals]
     procs = procs or min(len(jobs), max(1, (os.cpu_count() or 4) // 2))
     ctx = mp.get_context("fork")
@@ -182,11 +196,12 @@ def report(ck, results, select=None, replayer=None, rename=None, also_used=()):
                 lock = set(lock) | {full}
             backend = "+".join(rec["backends"])
             if rec["status"] == "discharged":
-                ck.ob(name, "discharged", backend=backend, secs=rec["secs"], clause=rec["clause"], queries=rec["paths"])
+                ck.ob(name, "discharged", backend=backend, secs=rec["secs"], clause=rec["clause"], queries=rec["paths"],
+                      detail={"second_backend": rec["second_backend"]} if rec.get("second_backend") else None)
                 continue
             if rec["status"] == "unknown":
                 ck.ob(name, "undecided", backend=backend, secs=rec["secs"], clause=rec["clause"], queries=rec["paths"],
-                      detail={"reason": "solver unknown/timeout on %d of %d path queries" % (rec["paths_unknown"], rec["paths"])})
+                      detail={"reason": rec.get("disagreement") or "solver unknown/timeout on %d of %d path queries" % (rec["paths_unknown"], rec["paths"])})
                 continue
             model = rec.get("model", {})
             rep = None
